@@ -770,7 +770,7 @@ def families(tier):
             fams.append(('cubic-dispatch-%s-%s' % ('quad' if qa else 'noscipy', 'normal' if nrm else 'free'), M, 'fam_cubic_dispatch', {'quad_available': qa, 'normalised': nrm}))
     # length() after an earlier length(error=, min_depth=) call on the same object (the cache must not serve a coarser value):
     # the segment-cache families of C16, no-scipy and scipy configurations
-    for deg in (2, 3):
+    for deg in (3,):      # only CubicBezier.length keeps a cache
         for qa in (False, True):
             fams.append(('after-coarse-call-deg%d-%s' % (deg, 'quad' if qa else 'noscipy'), 'vf.props.c16', 'fam_segment_cache', {'deg': deg, 'quad_available': qa}))
     return fams
